@@ -60,6 +60,20 @@ func (d Data) Inert(fields []Field) Data {
 	return out
 }
 
+// AuthorInert is Inert with every safehtml.HTML value replaced by one without markup: the author relation
+// compares the markup of the template text, and markup carried by a trusted value is not part of it (the engine
+// escapes such a value where it believes to be inside an attribute, the reference renderer never does).
+func (d Data) AuthorInert(fields []Field) Data {
+	out := d.Inert(fields)
+	for i, v := range out.V {
+		if v.Type == "HTML" {
+			v.S = "zq"
+			out.V[i] = v
+		}
+	}
+	return out
+}
+
 // Placeholder is the inert value: alphanumeric, starting with a digit.
 const Placeholder = "7zq"
 
